@@ -58,15 +58,18 @@ Anchor == IF NeedStruct /\ HasStruct /\ OpenerIdxs(StructPos) # {}
           THEN {CHOOSE m \in OpenerIdxs(StructPos) : \A y \in OpenerIdxs(StructPos) : y <= m} ELSE {}
 AddCmt ==
   /\ "cmt" \in PKinds /\ (NeedStruct => HasStruct)
-  /\ \E pos \in Ch(IF NeedStruct THEN Anchor ELSE 1..(N + 1)), place \in {1, 2, 3}, c \in Ch(1..NCmtCls) :
+  /\ \E pos \in Ch(IF NeedStruct THEN Anchor ELSE 1..(N + 1)), place \in {1, 2, 3, 4}, c \in Ch(1..NCmtCls) :
        /\ (NeedStruct => place = 1)
+       \* place 4: the comment line lies between the two halves of a character literal that is continued
+       /\ (place = 4 => pos <= N /\ ((out[pos].k = "s" /\ out[pos].v \in StrSplitS) \/ (out[pos].k = "decl" /\ out[pos].v \in StrSplitDecl)))
        /\ (place \in {2, 3} => pos <= N)
        /\ ~InJoin(pos) /\ ~Shifting
+       /\ (place = 4 => ~HasEd("sent", pos) /\ ~HasEd("garb", pos) /\ ~HasEd("brk", pos))
        /\ (place = 3 => Splittable(pos))
        /\ (place = 2 => out[pos].k # "format")
        /\ (place \in {2, 3} => ~HasEd("sent", pos) /\ ~HasEd("garb", pos))
        \* at most one comment found inside a statement (trailing or in-continuation)
-       /\ (place \in {2, 3} => ~\E j \in 1..Len(ed) : ed[j].t = "cmt" /\ ed[j].pos = pos /\ ed[j].a \in {2, 3})
+       /\ (place \in {2, 3, 4} => ~\E j \in 1..Len(ed) : ed[j].t = "cmt" /\ ed[j].pos = pos /\ ed[j].a \in {2, 3, 4})
        /\ ed' = Append(ed, E("cmt", pos, place, c))
 
 AddCpp ==
@@ -77,7 +80,7 @@ AddCpp ==
 AddGarb ==
   /\ "garb" \in PKinds /\ ~\E j \in 1..Len(ed) : ed[j].t = "garb"
   /\ \E pos \in Ch(1..N), g \in 1..NGarb, extra \in 0..2 :
-       /\ ~\E j \in 1..Len(ed) : ed[j].t = "cmt" /\ ed[j].pos = pos /\ ed[j].a \in {2, 3}
+       /\ ~\E j \in 1..Len(ed) : ed[j].t = "cmt" /\ ed[j].pos = pos /\ ed[j].a \in {2, 3, 4}
        /\ ed' = Append(ed, E("garb", pos, g, extra))
 
 AddInc ==
@@ -96,7 +99,7 @@ AddSent ==
   /\ "sent" \in PKinds
   /\ \E pos \in Ch({i \in 1..N : IsSimple(i)}), c \in {0, 1, 2, 3} :    \* 1 continued, 2/3 with a comment / blank line between
        /\ IsSimple(pos) /\ ~HasEd("sent", pos)
-       /\ ~\E j \in 1..Len(ed) : ed[j].t = "cmt" /\ ed[j].pos = pos /\ ed[j].a \in {2, 3}
+       /\ ~\E j \in 1..Len(ed) : ed[j].t = "cmt" /\ ed[j].pos = pos /\ ed[j].a \in {2, 3, 4}
        /\ (c >= 1 => Splittable(pos))
        /\ ed' = Append(ed, E("sent", pos, c, 0))
 
@@ -190,13 +193,13 @@ EdsAt(pos, places) == SelectSeq([j \in 1..Len(ed) |-> j],
 RECURSIVE Leaves(_)
 Leaves(i) == IF i > N THEN [j \in 1..Len(EdsAt(N + 1, {1})) |-> <<"e", EdsAt(N + 1, {1})[j]>>]
              ELSE [j \in 1..Len(EdsAt(i, {1})) |-> <<"e", EdsAt(i, {1})[j]>>] \o << <<"s", i>> >>
-                  \o [j \in 1..Len(EdsAt(i, {2, 3})) |-> <<"e", EdsAt(i, {2, 3})[j]>>] \o Leaves(i + 1)
+                  \o [j \in 1..Len(EdsAt(i, {2, 3, 4})) |-> <<"e", EdsAt(i, {2, 3, 4})[j]>>] \o Leaves(i + 1)
 
 \* physical lines: every statement one line, plus one for a continuation break, plus inserted lines
 CppLines(f) == IF f \in {12, 13} THEN 2 ELSE 1          \* backslash-continued forms occupy two lines
 PreLines(i) == LET js == {j \in 1..Len(ed) : ed[j].pos = i /\ ((ed[j].t = "cmt" /\ ed[j].a = 1) \/ ed[j].t = "cpp")} IN
                Cardinality(js) + Cardinality({j \in js : ed[j].t = "cpp" /\ CppLines(ed[j].a) = 2})
-StmtLines(i) == IF \E j \in 1..Len(ed) : ed[j].t = "cmt" /\ ed[j].pos = i /\ ed[j].a = 3 THEN 3
+StmtLines(i) == IF \E j \in 1..Len(ed) : ed[j].t = "cmt" /\ ed[j].pos = i /\ ed[j].a \in {3, 4} THEN 3
                 ELSE IF \E j \in 1..Len(ed) : ed[j].t = "brk" /\ ed[j].pos = i
                      THEN (IF \E j \in 1..Len(ed) : ed[j].t = "brk" /\ ed[j].pos = i /\ ed[j].b \in {3, 4, 5} THEN 3 ELSE 2)
                 ELSE IF \E j \in 1..Len(ed) : ed[j].t = "garb" /\ ed[j].pos = i THEN 1 + (CHOOSE b \in 0..2 : \E j \in 1..Len(ed) : ed[j].t = "garb" /\ ed[j].pos = i /\ ed[j].b = b)
